@@ -6,7 +6,7 @@
 (* per case: Init picks the case, Judge evaluates every clause and records *)
 (* the first failing one.                                                  *)
 (***************************************************************************)
-EXTENDS Integers, Sequences, FiniteSets, TLC, Json, IOUtils, Layout, Affine, Template
+EXTENDS Integers, Sequences, FiniteSets, TLC, Json, IOUtils, Layout, Affine, Template, Streamer
 
 Batch == JsonDeserialize(IOEnv.BATCH)
 Cases == Batch.cases
@@ -80,12 +80,59 @@ ApiStep(c) ==
     <<"IterSpace", IterBag(c.result) = IterBag(c.init)>>
   >>)
 
+(* ---------------- C19: canonical forms and alternative representations ---------------- *)
+PtBox(nd, lo, hi) == Box0(nd, lo, hi)
+
+AffCanon(c) ==
+  LET pts == {p \in PtBox(c.nd, c.lo, c.hi) : AffSafe(c.e, p)} IN
+  First(<<
+    <<"CanonicalizeMeaning", \A p \in pts : AffSafe(c.c, p) /\ AffEval(c.c, p) = AffEval(c.e, p)>>,
+    <<"CanonicalizeIdempotent", c.c2 = c.c>>
+  >>)
+
+MatVec(A, b, x) == [i \in DOMAIN A |-> Dot(A[i], x) + b[i]]
+AffMapCase(c) ==
+  LET pts == PtBox(c.nd, c.lo, c.hi) IN
+  First(<<
+    <<"FromAffineMap", \A p \in pts : MatVec(c.A, c.b, p) = [i \in DOMAIN c.results |-> AffEval(c.results[i], p)]>>,
+    <<"ToAffineMap", \A p \in pts : MatVec(c.A, c.b, p) = [i \in DOMAIN c.back |-> AffEval(c.back[i], p)]>>,
+    <<"Eval", \A k \in DOMAIN c.evalpts : c.evalgot[k] = MatVec(c.A, c.b, c.evalpts[k])>>
+  >>)
+
+ComposeCase(c) ==
+  LET pts == PtBox(c.nd, c.lo, c.hi) IN
+  First(<< <<"Compose", \A p \in pts : MatVec(c.CA, c.Cb, p) = MatVec(c.A1, c.b1, MatVec(c.A2, c.b2, p))>> >>)
+
+AccessPatCase(c) ==
+  First(<<
+    <<"CanonicalizeMeaning", IterBag(c.canon) = IterBag(c.orig)>>,
+    <<"CanonicalizeIsDropUnit", c.canon = DropUnit(c.orig)>>,
+    <<"CanonicalizeIdempotent", c.canon2 = c.canon>>,
+    <<"InnerDims", c.inner = InnerDims(c.orig, c.k)>>
+  >>)
+
+StridePatCase(c) ==
+  First(<<
+    <<"CanonicalizeAddressSequence", AddrSeq(c.canon.ub, c.canon.ts) = AddrSeq(c.orig.ub, c.orig.ts)>>,
+    <<"CanonicalizeSpatial", c.canon.ss = c.orig.ss>>,
+    <<"CanonicalizeIdempotent", c.canon2 = c.canon>>,
+    <<"PrintParse", c.reparsed = c.orig>>
+  >>)
+
+EqCase(c) == First(<< <<c.clause, c.x = c.y>> >>)
+
 JudgeObj(c) ==
   CASE c.kind = "tsl" -> TslStatic(c)
     [] c.kind = "tsl_dyn" -> TslDynamic(c)
     [] c.kind = "schedtrace" -> SchedTrace(c)
     [] c.kind = "match" -> MatchCase(c)
     [] c.kind = "apistep" -> ApiStep(c)
+    [] c.kind = "affcanon" -> AffCanon(c)
+    [] c.kind = "affmap" -> AffMapCase(c)
+    [] c.kind = "compose" -> ComposeCase(c)
+    [] c.kind = "accesspat" -> AccessPatCase(c)
+    [] c.kind = "stridepat" -> StridePatCase(c)
+    [] c.kind = "eq" -> EqCase(c)
     [] OTHER -> "machinery:unknown-kind"
 
 Init == tid \in 1..Len(Cases) /\ verdict = ""
